@@ -154,6 +154,12 @@ def run_case(ctx, rng, graph, gkind, i):
         ok = batch >= 0
         if _amax(root[ok] ** 2 - batch[ok]) > 1e-6 * max(1.0, np.abs(batch).max()):
             ctx.fail("square_root_distance_inconsistent", cls="GMRFVectorModel")
+        # ... the same with the documented square root, for one query given alone (a vector, a one-row matrix) as for the batch
+        r1 = np.array([float(m.mahalanobis_distance(row, square_root=True)) for row in q[:3]])
+        r2 = np.array([float(np.asarray(m.mahalanobis_distance(row[None, :].copy(), square_root=True)).ravel()[0]) for row in q[:3]])
+        ctx.tap("square_root_single_vs_batch", "calls"); ctx.tap("square_root_single_vs_batch", "checked")
+        if _amax(r1 - root[:3]) > 1e-6 * max(1.0, np.abs(root).max()) or _amax(r2 - root[:3]) > 1e-6 * max(1.0, np.abs(root).max()):
+            ctx.fail("batched_and_single_distances_differ", cls="GMRFVectorModel", mech=("sparse" if sparse else "dense") + ":square_root")
         ds[sparse] = batch
     if _amax(ds[True] - ds[False]) > (1e-8 if dtype == np.float64 else 1e-3) * max(1.0, np.abs(ds[False]).max()):
         ctx.fail("sparse_and_dense_distances_differ", cls="GMRFVectorModel", mech=gkind)
